@@ -270,7 +270,7 @@ fn write_entry(
         let sprite_offset = w.pos()? - entry_pos;
 
         let sprite_id = sprite.id.unwrap_or(*next_auto_sprite_id);
-        *next_auto_sprite_id = sprite_id + 1;
+        *next_auto_sprite_id = sprite_id.wrapping_add(1);
 
         write_sprite(w, sprite_id, sprite)?;
         Ok(sprite_offset)
@@ -374,8 +374,7 @@ fn read_texture(f: &mut BinReader, emitter: &impl Emitter, with_images: bool) ->
     }
 
     if with_images {
-        let mut data = vec![0; size as usize];
-        f.read_exact(&mut data)?;
+        let data = f.read_byte_vec(size as usize)?;
         Ok((thtx, Some(data.into())))
     } else {
         Ok((thtx, None))
